@@ -20,6 +20,10 @@ pub enum TokA {
     E,
     #[token("中")]
     Zh,
+    #[token("#é")]
+    HashE,
+    #[token("=😀")]
+    EqSmile,
     #[regex("[😀-😏]")]
     Smile,
     #[regex(" +", logos::skip)]
